@@ -692,8 +692,8 @@ func TestC06(t *testing.T) {
 		}
 		judge(w, "1 "+gen.UpperASCII(wc[i].Word)+" 2")
 	})
-	p = c.rec.NewPart("source_dictionary", fmt.Sprintf("%d lead constructs (closed and open literals of every kind, numbers, words, punctuation, comments) x blank? x W x blank? x every tail of 0..3 symbols over %q, for each word W (as written, upper, lower) that occurs as a literal in the SQLi source files and is not a table key", len(sqlDictLeads), sqlDictTail), false, true, "")
-	c.sqlDictInputs(p, judge)
+	p = c.rec.NewPart("source_dictionary", fmt.Sprintf("%d lead constructs (closed and open literals of every kind, numbers, words, punctuation, comments) x blank? x W x blank? x every tail of 0..2 (thorough 3) symbols over %q, for each word W (as written, upper, lower) that occurs as a literal in the SQLi source files and is not a table key", len(sqlDictLeads), sqlDictTail), false, true, "")
+	c.sqlDictInputs(p, pick(2, 3), judge)
 	p = c.rec.NewPart("rapid_fragments", "pgregory.net/rapid over the SQL fragment grammar (fragments + arbitrary bytes, drawn separators, tail-repeat)", true, false, "")
 	g := gen.SQLInput()
 	c.Rapid(p, 8, pick(25000, 600000), func(rt *rapid.T, sh int) ev.Case {
